@@ -141,10 +141,6 @@ class Monitor:
                             if kk < len(src.log):
                                 vals = vals + tuple(src.log[kk][1].get())
                         sp.log.append((t, Cell(vals=vals)))
-                    if any(len(x.log) != len(srcs[0].log) for x in srcs):
-                        # numpy broadcasting of the time lists lets storages of different length through;
-                        # the property statement does not speak about from_collection: observation only
-                        self.observations.append("from_collection combined storages with different numbers of frames")
                 S.append(sp)
         elif k in ("newField", "setField"):
             pass
